@@ -338,7 +338,8 @@ theorem lookupRange_spec (k : Nat) (U : List (Nat × Pos N)) (s len : Nat)
 theorem flightRow_spec (sh : N → String) (k : Nat) (U : List (Nat × Pos N)) (a b : Nat) (hb : 1 ≤ b)
     (hk : U.map (·.1) = List.range' a b) :
     ∃ r, flightRow sh k U = .ok r ∧ r.length = a + b ∧
-      ∀ t, (r[t]?).getD "" = ((AMap.get? U t).map (Pos.str sh)).getD "" := by
+      (∀ t, (r[t]?).getD "" = ((AMap.get? U t).map (Pos.str sh)).getD "") ∧
+      (∀ T, r.length ≤ T ↔ ∀ t, T ≤ t → AMap.get? U t = none) := by
   have hlen : U.length = b := by simpa using congrArg List.length hk
   have hin : ∀ t, AMap.get? U t = none ↔ ¬ (a ≤ t ∧ t < a + b) := by
     intro t
@@ -359,8 +360,18 @@ theorem flightRow_spec (sh : N → String) (k : Nat) (U : List (Nat × Pos N)) (
   have hmin : minKey (AMap.keys U) = some a := by
     show minKey (U.map (·.1)) = some a
     rw [hk]; exact minKey_range' a b hb
-  refine ⟨List.replicate a "" ++ ps.map (Pos.str sh), ?_, by simp [h2], fun t => ?_⟩
+  refine ⟨List.replicate a "" ++ ps.map (Pos.str sh), ?_, by simp [h2], fun t => ?_, fun T => ?_⟩
   · simp only [flightRow, hmin, hlen, h1]
+  rotate_left
+  · simp only [List.length_append, List.length_replicate, List.length_map, h2]
+    constructor
+    · intro hT t ht
+      exact (hin t).2 (by omega)
+    · intro h
+      apply Classical.byContradiction
+      intro hlt
+      have := (hin (a + b - 1)).1 (h (a + b - 1) (by omega))
+      omega
   · rw [List.getElem?_append, List.length_replicate]
     by_cases hta : t < a
     · have : AMap.get? U t = none := (hin t).2 (by omega)
@@ -706,6 +717,183 @@ theorem cell_table (rows : List (List String)) (j t : Nat) :
   unfold cell table
   rw [List.getElem?_cons_succ, keyRows_getElem?]
   cases rows[j]? <;> simp
+
+/-! ## 9. the checker `checkC16` -/
+
+theorem mem_hostStrs (sh : N → String) (c : List (N × List HI)) (i : Nat) (s : String) :
+    s ∈ hostStrs sh c i ↔ ∃ e ∈ c, ∃ h ∈ e.2, h.idx = i ∧ s = h.st.code ++ ":" ++ sh e.1 := by
+  unfold hostStrs
+  simp only [List.mem_flatten, List.mem_map]
+  constructor
+  · rintro ⟨l, ⟨e, he, rfl⟩, hs⟩
+    obtain ⟨h, hh, rfl⟩ := List.mem_map.1 hs
+    obtain ⟨hh1, hh2⟩ := List.mem_filter.1 hh
+    exact ⟨e, he, h, hh1, by simpa using hh2, rfl⟩
+  · rintro ⟨e, he, h, hh, hi, rfl⟩
+    exact ⟨_, ⟨e, he, rfl⟩, List.mem_map.2 ⟨h, List.mem_filter.2 ⟨hh, by simpa using hi⟩, rfl⟩⟩
+
+/-- the strings the checker collects for a cell -/
+def hostStrsAt (sh : N → String) (d : List (List (N × List HI))) (t i : Nat) : List String :=
+  match d[t]? with
+  | some c => hostStrs sh c i
+  | none => []
+
+theorem mem_hostStrsAt (sh : N → String) (d : List (List (N × List HI))) (t i : Nat) (s : String)
+    (hnd : ∀ c ∈ d, (AMap.keys c).Nodup) :
+    s ∈ hostStrsAt sh d t i ↔ ∃ (L : Stall) (u : N), Hosted d t u i L ∧ s = L.code ++ ":" ++ sh u := by
+  unfold hostStrsAt Hosted
+  cases hc : d[t]? with
+  | none => simp
+  | some c =>
+    have hcd : c ∈ d := List.mem_of_getElem? hc
+    simp only [mem_hostStrs, Option.some.injEq, exists_eq_left']
+    constructor
+    · rintro ⟨e, he, h, hh, hi, rfl⟩
+      obtain ⟨eu, el⟩ := e
+      refine ⟨h.st, eu, ?_, rfl⟩
+      rw [bag_get_of_mem c eu el (hnd c hcd) he]
+      have : h = { idx := i, st := h.st } := by cases h; simp_all
+      rw [← this]; exact hh
+    · rintro ⟨L, u, hm, rfl⟩
+      exact ⟨(u, Bag.get c u), mem_of_bag_get c u _ hm, _, hm, rfl, rfl⟩
+
+/-- the Boolean test of `checkRowCells` for one cell -/
+def cellBad (hs : List String) (x : String) : Bool :=
+  match hs with
+  | [] => x != ""
+  | h :: rest => !(x == h && rest.all (· == h))
+
+theorem cellBad_false_iff (hs : List String) (x : String) :
+    cellBad hs x = false ↔ (hs = [] ∧ x = "") ∨ (hs ≠ [] ∧ ∀ s ∈ hs, s = x) := by
+  cases hs with
+  | nil => simp [cellBad]
+  | cons h rest =>
+    simp only [cellBad, Bool.not_eq_false', Bool.and_eq_true, beq_iff_eq, List.all_eq_true, reduceCtorEq, false_and,
+      false_or, ne_eq, not_false_eq_true, true_and, List.mem_cons, forall_eq_or_imp]
+    constructor
+    · rintro ⟨rfl, h2⟩
+      exact ⟨rfl, fun s hs => h2 s hs⟩
+    · rintro ⟨rfl, h2⟩
+      exact ⟨rfl, fun s hs => h2 s hs⟩
+
+/-- per cell: the checker's test is the per-cell clause of `C16_Holds` -/
+theorem cellBad_iff (sh : N → String) (hsh : Function.Injective sh) (d : List (List (N × List HI))) (x : String)
+    (t i : Nat) (hnd : ∀ c ∈ d, (AMap.keys c).Nodup) :
+    cellBad (hostStrsAt sh d t i) x = false ↔
+      ((∀ (L : Stall) (u : N), x = L.code ++ ":" ++ sh u ↔ Hosted d t u i L) ∧
+       (x = "" ↔ ∀ (L : Stall) (u : N), ¬ Hosted d t u i L)) := by
+  have hmem := fun s => mem_hostStrsAt sh d t i s hnd
+  rw [cellBad_false_iff]
+  constructor
+  · rintro (⟨h0, rfl⟩ | ⟨hne, hall⟩)
+    · have hno : ∀ (L : Stall) (u : N), ¬ Hosted d t u i L := by
+        intro L u hH
+        have := (hmem _).2 ⟨L, u, hH, rfl⟩
+        rw [h0] at this; simp at this
+      exact ⟨fun L u => ⟨fun h => absurd h.symm (str_ne_empty sh L u), fun h => absurd h (hno L u)⟩,
+        ⟨fun _ => hno, fun _ => rfl⟩⟩
+    · obtain ⟨s0, hs0⟩ := List.exists_mem_of_ne_nil _ hne
+      obtain ⟨L0, u0, hH0, e0⟩ := (hmem s0).1 hs0
+      have hx : x = L0.code ++ ":" ++ sh u0 := by rw [← e0]; exact (hall s0 hs0).symm
+      refine ⟨fun L u => ⟨fun h => ?_, fun h => ?_⟩, ⟨fun h => ?_, fun h => absurd hH0 (h L0 u0)⟩⟩
+      · rw [hx] at h
+        obtain ⟨rfl, rfl⟩ := str_inj sh hsh _ _ _ _ h
+        exact hH0
+      · exact (hall _ ((hmem _).2 ⟨L, u, h, rfl⟩)).symm
+      · rw [hx] at h; exact absurd h (str_ne_empty sh L0 u0)
+  · rintro ⟨h1, h2⟩
+    cases hhs : hostStrsAt sh d t i with
+    | nil =>
+      refine .inl ⟨rfl, h2.2 ?_⟩
+      intro L u hH
+      have := (hmem _).2 ⟨L, u, hH, rfl⟩
+      rw [hhs] at this; simp at this
+    | cons s0 rest =>
+      refine .inr ⟨by simp, ?_⟩
+      intro s hs
+      rw [← hhs] at hs
+      obtain ⟨L, u, hH, rfl⟩ := (hmem s).1 hs
+      exact ((h1 L u).2 hH).symm
+
+theorem checkRowCells_succ (sh : N → String) (d : List (List (N × List HI))) (tbl : List (List String))
+    (k t fuel : Nat) :
+    checkRowCells sh d tbl k t (fuel + 1) =
+      if cellBad (hostStrsAt sh d (t - 1) (k - 1)) (cell tbl k t) then
+        some s!"cell (I{k}, {t}) is '<label>:<unit>' exactly when the diagram places the instruction there"
+      else checkRowCells sh d tbl k (t + 1) fuel := by
+  unfold hostStrsAt cellBad
+  rw [checkRowCells]
+  cases d[t - 1]? with
+  | none => rfl
+  | some c => cases hostStrs sh c (k - 1) <;> rfl
+
+theorem checkRowCells_none_iff (sh : N → String) (d : List (List (N × List HI))) (tbl : List (List String))
+    (k t fuel : Nat) :
+    checkRowCells sh d tbl k t fuel = none ↔
+      ∀ t', t ≤ t' → t' < t + fuel → cellBad (hostStrsAt sh d (t' - 1) (k - 1)) (cell tbl k t') = false := by
+  induction fuel generalizing t with
+  | zero => simp [checkRowCells]; intro t' h1 h2; omega
+  | succ fuel ih =>
+    rw [checkRowCells_succ]
+    cases hb : cellBad (hostStrsAt sh d (t - 1) (k - 1)) (cell tbl k t) with
+    | true =>
+      simp only [if_true, reduceCtorEq, false_iff]
+      intro h
+      have := h t (Nat.le_refl _) (by omega)
+      rw [hb] at this; cases this
+    | false =>
+      simp only [Bool.false_eq_true, if_false, ih]
+      constructor
+      · intro h t' h1 h2
+        by_cases e : t' = t
+        · subst e; exact hb
+        · exact h t' (by omega) (by omega)
+      · intro h t' h1 h2
+        exact h t' (by omega) (by omega)
+
+theorem checkRows_none_iff (sh : N → String) (d : List (List (N × List HI))) (tbl : List (List String))
+    (width k fuel : Nat) :
+    checkRows sh d tbl width k fuel = none ↔
+      ∀ k', k ≤ k' → k' < k + fuel → (cell tbl k' 0 = "I" ++ toString k' ∧
+        ∀ t', 1 ≤ t' → t' < 1 + width → cellBad (hostStrsAt sh d (t' - 1) (k' - 1)) (cell tbl k' t') = false) := by
+  induction fuel generalizing k with
+  | zero => simp [checkRows]; intro k' h1 h2; omega
+  | succ fuel ih =>
+    rw [checkRows]
+    by_cases hkey : cell tbl k 0 = "I" ++ toString k
+    · have hk' : (cell tbl k 0 != "I" ++ toString k) = false := by simpa using hkey
+      simp only [hk', Bool.false_eq_true, if_false]
+      cases hc : checkRowCells sh d tbl k 1 width with
+      | some e =>
+        simp only [reduceCtorEq, false_iff]
+        intro h
+        have := (h k (Nat.le_refl _) (by omega)).2
+        rw [← checkRowCells_none_iff, hc] at this
+        cases this
+      | none =>
+        simp only [ih]
+        have hc' := (checkRowCells_none_iff sh d tbl k 1 width).1 hc
+        constructor
+        · intro h k' h1 h2
+          by_cases e : k' = k
+          · subst e; exact ⟨hkey, hc'⟩
+          · exact h k' (by omega) (by omega)
+        · intro h k' h1 h2
+          exact h k' (by omega) (by omega)
+    · have hk' : (cell tbl k 0 != "I" ++ toString k) = true := by simpa using hkey
+      simp only [hk', if_true, reduceCtorEq, false_iff]
+      intro h
+      exact hkey (h k (Nat.le_refl _) (by omega)).1
+
+theorem foldl_max_ge (tbl : List (List String)) (init : Nat) :
+    init ≤ tbl.foldl (fun m r => max m r.length) init ∧
+    ∀ r ∈ tbl, r.length ≤ tbl.foldl (fun m r => max m r.length) init := by
+  induction tbl generalizing init with
+  | nil => simp
+  | cons r rs ih =>
+    simp only [List.foldl_cons, List.mem_cons, forall_eq_or_imp]
+    obtain ⟨h1, h2⟩ := ih (max init r.length)
+    exact ⟨by omega, by omega, h2⟩
 
 end CliLemmas
 end ProcSim
